@@ -781,6 +781,12 @@ class Unit:
             self.out.append('    decreases')
             self.emit_tagged(spec['decreases'], 'decreases', name)
         fnrec['out_line0'] = len(self.out) + 1
+        if os.environ.get('VERIF_PROBE') and (spec['ensures'] or spec['requires']):
+            # reachability probe behind the precondition: must FAIL (a caller never sees it)
+            body = '{ proof { assert(false); } //PROBE\n' + body[1:]
+            inserts = [(off + len('{ proof { assert(false); } //PROBE\n') - 1, k, p) for (off, k, p) in inserts]
+            c = Clause(name + '#__probe', ['PROBE'], 'probe', name); c.line0 = c.line1 = len(self.out) + 1
+            self.clauses.append(c)
         pos = 0
         for off, kind, payload in inserts:
             self.emit_raw(body[pos:off])
@@ -835,11 +841,11 @@ def build_unit(name, repo, verif, outdir):
     text = u.build(os.path.join(verif, 'units', name + '.vrs'))
     u.finish_clause_ranges()
     os.makedirs(outdir, exist_ok=True)
-    path = os.path.join(outdir, name + '.rs')
+    path = os.path.join(outdir, name + ('_probe' if os.environ.get('VERIF_PROBE') else '') + '.rs')
     open(path, 'w').write(text)
     meta = dict(unit=name, path=path, clauses=[c.to_json() for c in u.clauses], functions=u.functions,
                 rewrites={k: dict(v) for k, v in u.rewrites.items()}, lemmas=u.lemmas, sources=sorted(u.sources))
-    json.dump(meta, open(os.path.join(outdir, name + '.meta.json'), 'w'), indent=1)
+    json.dump(meta, open(os.path.join(outdir, name + ('_probe' if os.environ.get('VERIF_PROBE') else '') + '.meta.json'), 'w'), indent=1)
     return path, meta
 
 if __name__ == '__main__':
